@@ -80,11 +80,18 @@ def orders (P : Prepared) : List Order :=
     | none => false
   let byKey (key : String → String) : Order := fun l => (l.toArray.qsort (fun a b => key a.1 < key b.1)).toList
   let byHash (seed : Nat) : Order := fun l => (l.toArray.qsort (fun a b => mixStr seed a.1 < mixStr seed b.1)).toList
+  -- a group node processed FIRST resolves at once and `notifySteps` recurses into what became ready (e.g. the output
+  -- node) before the other popped groups are resolved: one order per group node with that node in front
+  let groups := (P.items.filter (fun p => p.2.kind == .group)).map (·.1)
+  let first (g : String) (rev : Bool) : Order := fun l =>
+    let rest := sortedOrder (l.filter (fun a => a.1 != g))
+    l.filter (fun a => a.1 == g) ++ (if rev then rest.reverse else rest)
   [ sortedOrder,
     fun l => (sortedOrder l).reverse,
     byKey (fun id => (if isGroup id then "0" else "1") ++ id),
     byKey (fun id => (if isGroup id then "1" else "0") ++ id),
     byHash 1, byHash 2, byHash 3, byHash 4 ]
+  ++ (groups.take 12).map (fun g => first g false) ++ (groups.take 12).map (fun g => first g true)
 
 def stateFingerprint (s : LoopState) : UInt64 :=
   hash (toString (repr s.data), toString (repr (s.dag.nodes.map (fun n => (n.id, n.res.map (·.1), n.out.map (·.1))))),
